@@ -168,7 +168,9 @@ def parse_rvalue(txt):
             return ('cast', op, ty, kind)
         if not c.eof(): raise SyntaxError("trailing in use: %r" % c.rest())
         return ('use', op)
-    if c.eat('&raw const ') or c.eat('&raw mut '): return ('ref', parse_place(c), 'raw')
+    if c.eat('&raw const ') or c.eat('&raw mut '):
+        c.eat('(fake) ')
+        return ('ref', parse_place(c), 'raw')
     if c.eat('&mut '): return ('ref', parse_place(c), 'mut')
     if c.eat('&'):
         c.eat('fake shallow ')
